@@ -81,38 +81,38 @@ type ExpField struct {
 
 // Stats describes one graph and its rendering, for the evidence.
 type Stats struct {
-	Depth               int // longest chain of nested records below the top level (0 = flat)
-	Sections            int // dependency sections rendered
-	TopFields           int
-	DefinedFields       int // fields over all definitions
-	ExpandedFields      int // fields of the fully expanded expected tree
-	RecordFields        int // non-array fields of a nested type
-	PrimFields          int
-	FixedPrimArrays     int
-	VarPrimArrays       int
-	FixedRecordArrays   int
-	VarRecordArrays     int
-	HeaderUses          int // fields written "Header"
-	QualifiedRefs       int // fields written "pkg/Name"
-	UnqualifiedRefs     int // fields written "Name", resolved in the containing type's package
-	ParentRelativeRefs  int // unqualified references inside a type whose package differs from the top-level package
-	SameNameOtherPkg    int // unqualified references whose short name also exists in another package of the graph
-	PackagelessRefs     int // fields written "Name" matching a package-less section "MSG: Name" exactly
-	SharedTypes         int // types referenced from more than one field
-	UnusedSections      int
-	EmptyTypes          int
-	HeaderDecoy         bool // a type named Header outside std_msgs exists (referenced qualified only)
-	Constants           int
-	StringConstHashEq   int // string constants whose value contains '#' or '='
-	CommentLines        int
-	TrailingComments    int
-	TrailingCommentEq   int // trailing comments containing '='
-	BlankLines          int
-	TabOnly             bool
-	Primitives          map[string]int
-	SeparatorLens       map[int]int
-	NoFinalNewline      bool
-	IndentedSeparators  int
+	Depth              int // longest chain of nested records below the top level (0 = flat)
+	Sections           int // dependency sections rendered
+	TopFields          int
+	DefinedFields      int // fields over all definitions
+	ExpandedFields     int // fields of the fully expanded expected tree
+	RecordFields       int // non-array fields of a nested type
+	PrimFields         int
+	FixedPrimArrays    int
+	VarPrimArrays      int
+	FixedRecordArrays  int
+	VarRecordArrays    int
+	HeaderUses         int // fields written "Header"
+	QualifiedRefs      int // fields written "pkg/Name"
+	UnqualifiedRefs    int // fields written "Name", resolved in the containing type's package
+	ParentRelativeRefs int // unqualified references inside a type whose package differs from the top-level package
+	SameNameOtherPkg   int // unqualified references whose short name also exists in another package of the graph
+	PackagelessRefs    int // fields written "Name" matching a package-less section "MSG: Name" exactly
+	SharedTypes        int // types referenced from more than one field
+	UnusedSections     int
+	EmptyTypes         int
+	HeaderDecoy        bool // a type named Header outside std_msgs exists (referenced qualified only)
+	Constants          int
+	StringConstHashEq  int // string constants whose value contains '#' or '='
+	CommentLines       int
+	TrailingComments   int
+	TrailingCommentEq  int // trailing comments containing '='
+	BlankLines         int
+	TabOnly            bool
+	Primitives         map[string]int
+	SeparatorLens      map[int]int
+	NoFinalNewline     bool
+	IndentedSeparators int
 }
 
 // Graph is a top-level type plus the dependency types that get a section.
